@@ -18,9 +18,23 @@ RULES = {
     'C07': 'histories incl. reserve, copy/move construction and assignment in both size directions, swap, clear, erase, element construction/assignment; every case ends with destruction of all containers; oracle (ledger allocator): every deallocate matches a live block with the same byte count, equal arena and same rebound value_type size; no block freed twice; ledger empty at the end. NON-TRIVIAL: the case performed >=1 reallocation on a list with a VaryingSize (two blocks per vector) or involved >=2 arenas. DISTINCT: hash of (configuration, program).',
 }
 
+RULES.update({
+    'C08': 'histories (construction with arena ids, copy/move construction and assignment, swap under D8, element construction/assignment/swap with allocator arguments) over 5 representative lists x all 8 combinations of the propagate_on_container_* traits x is_always_equal {false,true}; oracle: get_allocator() arena of every operand after every op equals the arena predicted from std::allocator_traits (select_on_container_copy_construction returns a distinguishable arena), every data block located through data_begin()/the element is owned by an equal arena, unequal non-propagating move assignment does not take over the source block and move-constructs every tracked object exactly once; the ledger reports a deallocate through a non-equal arena. NON-TRIVIAL: an assignment or swap between operands of unequal arenas on a stateful allocator kind, or the element-wise move path. DISTINCT: hash of (configuration, program).',
+    'C09': 'histories of copy/move construction, copy/move assignment (targets: default-constructed, empty, smaller, larger, moved-from), swap, self-assignment, self-swap, interleaved with writes/emplace/erase on either operand; oracle: model twin per vector (copy -> independent equal value, move -> target takes the former value, moved-from vectors only cleared/assigned/swapped/destroyed and size()==0 && empty() after clear()), all slots compared with their models after every op so a mutation of one operand showing through in another is seen. NON-TRIVIAL: the source was partly filled (0<size<capacity) or a moved-from vector was reused. DISTINCT: hash of (configuration, program).',
+    'C10': 'histories dominated by reserve(n, b) with n below/equal/above capacity and b >= stored payload, on empty, partly filled and full vectors, repeated; oracle: snapshot before/after - capacity never decreases, size, every value and get_fixed_size unchanged; n<=capacity(): capacity, data_begin, memory_consumption unchanged and zero allocator traffic; n>capacity(): capacity()==n; later FILL up to the new limits runs under ASan with poisoned guard zones. NON-TRIVIAL: reserve(n>capacity) on a partly filled vector or >=2 effective reserves in one history. DISTINCT: hash of (configuration, program).',
+    'C11': 'histories with writes through 6 access paths (operator[], *it, it[k], structured binding, it->, front/back/end()-k) read back through all others after every op (incl. const paths), reference assignment by copy (from reference and const_reference) and by move (rvalue reference), swap, iter_swap, std::rotate / std::reverse / std::swap_ranges on ranges of equal-shaped elements compared with the same algorithm on the model, full iterator arithmetic/comparison table over all index pairs in [0,size]. NON-TRIVIAL: a write, assignment, swap or permutation involving positions i != j. DISTINCT: hash of (configuration, program).',
+    'C12': 'histories of ContiguousElement construction from const_reference / lvalue reference (copy) and rvalue reference (move), copy/move construction (plain and allocator-extended, equal and unequal arenas), copy/move assignment between elements of different varying sizes, swap, element<->reference assignment, writes to element or vector; oracle: element model twin compared through get<I>(element), const element, bound const_reference and structured bindings after every op, vector models compared too (independence), element storage is a ledger block distinct from every vector data block. NON-TRIVIAL: assignment between elements of different varying sizes or unequal arenas, element<->reference assignment, or allocator-extended move with an unequal allocator. DISTINCT: hash of (configuration, program).',
+    'C13': 'pairs/triples of vectors and elements built by emplace, CLONE (same logical content, different capacity/arena/memory junk), MUTATE (exactly one item changed), pop/erase (strict prefixes), incl. empty operands and different fixed sizes; oracle: ==/!= in every form (vector/vector incl. another allocator type, reference x const_reference x value_type in all 9 combinations) equals model equality, reflexive, symmetric, != is the negation; every program is executed twice on memory with different junk patterns and must give identical results. NON-TRIVIAL: equal-content operands in distinct memory, strict-prefix pairs, or elements of different sizes. DISTINCT: hash of (configuration, program).',
+    'C14': 'same operand generator with value domain {0,1,2} (ties in leading fields); oracle (laws only, from the library\'s own answers): a>b == b<a, a<=b == !(b<a), a>=b == !(a<b), irreflexive, asymmetric, transitive over triples, a<b => a!=b, a==b => neither ordered, identical answers for all operand kinds, vector< equals std::lexicographical_compare over element references under the element-level <; executed twice with different memory junk. NON-TRIVIAL: a strictly ordered pair with a tie in some field, or ordered vectors. DISTINCT: hash of (configuration, program).',
+    'C16': 'C01 histories plus swap and move construction; oracle: addresses of every field of every surviving element, data_begin(), capacity() and the ledger allocation counters snapshotted before each op: emplace_back within capacity, pop_back, clear, reserve(n<=capacity) keep everything and allocate nothing; erase keeps the elements in front of the erased position and allocates nothing; swap / move construction allocate nothing and hand over the block unchanged. NON-TRIVIAL: >=3 address-preserving ops on a vector with >=2 elements including an erase in the middle of >=3 elements. DISTINCT: hash of (configuration, program).',
+    'C18': 'ways to become empty (default-constructed, capacity 0, never filled, emptied by pop_back/erase/clear, copy/move of an empty vector) followed by clear, erase(begin,end), reserve, compare, copy, swap, destroy, reserve+emplace; oracle: size()==0, empty(), begin()==end(), data_begin()==data_end() and null or inside/one past the ledger block, model equality afterwards, no sanitizer report (guards poisoned), identical behaviour under two different memory junk patterns. NON-TRIVIAL: an emplace_back into a vector that was empty after a history (or has capacity 0 / a VaryingSize list). DISTINCT: hash of (configuration, program).',
+})
+
+RULES['C17'] = 'rapidcheck generates a history prefix and a target operation from {construction, reserve, copy construction, copy assignment, move assignment, element construction from a reference, element copy/move construction, element copy/move assignment}; a counting run learns that the target performs m allocations, then FOR EVERY k in 1..m the case is re-run in a forked child with the k-th allocation throwing std::bad_alloc (fault enumeration per case, exhaustive over k); oracle: the child neither terminates nor crashes; no ledger event (double free, wrong size/arena) and no lifetime event; operands the operation does not assign to (incl. the source of reserve / copy construction) equal their pre-operation model; assigned-to operands are valid: iteration yields size() elements, live tracked objects == reachable ones, a fresh value can be move-assigned to them and read back; after destroying everything the ledger and the object registry are empty. evaluations = generated (prefix,target) cases, each expanded into m injected runs (reported as fault_injected_runs). NON-TRIVIAL: the target op performed >=2 allocations (VaryingSize lists: block + address table) or >=1 on a list holding tracked objects. DISTINCT: hash of (configuration, program).'
+
 LEVEL_NOTE = {}
 
-HISTORY_PROPS = {'C01', 'C02', 'C03', 'C04', 'C05', 'C06', 'C07', 'C08', 'C09', 'C10', 'C11', 'C12', 'C13', 'C14', 'C16', 'C18'}
+HISTORY_PROPS = {'C17', 'C01', 'C02', 'C03', 'C04', 'C05', 'C06', 'C07', 'C08', 'C09', 'C10', 'C11', 'C12', 'C13', 'C14', 'C16', 'C18'}
 
 
 def known_for(pid):
@@ -88,7 +102,10 @@ def run(pid, tier, seed):
         for l in kf_lines:
             print(l)
         ev['known_findings_reported'] = len(kf_lines)
-        core.write_evidence(pid, tier, seed, 'exploration', ev, time.time() - t0, len(violations), core.ASSUMPTIONS)
+        level = 'fault_enumeration' if pid == 'C17' else 'exploration'
+        if pid == 'C17':
+            ev['evaluations_note'] = 'evaluations counts generated cases; every case is additionally run once per allocation of its target operation with that allocation failing (fault_injected_runs)'
+        core.write_evidence(pid, tier, seed, level, ev, time.time() - t0, len(violations), core.ASSUMPTIONS)
         for name, code, path in violations:
             print('failure in configuration %s: %s' % (name, code))
             print('VIOLATION property=%s replay=%s' % (pid, path))
